@@ -178,6 +178,14 @@ Plan gen_chaos(Rng &r, bool thorough) {
             Frame f; f.dlc = 8; f.d[0] = up ? r.pick<uint8_t>({0xA2, 0xA2, 0xA1, 0xA3}) : r.pick<uint8_t>({0xC1, 0xC5, 0xDD, 0xD9, 0x81, 0x7F, 0xFF}); f.d[1] = r.pick<uint8_t>({0, 1, 2, 63, 126, 127, 128}); f.d[2] = r.pick<uint8_t>({127, 1, 0, 64});
             o = Op("rx", {(int64_t)(0x600u + nid), 8, 1}, std::vector<uint8_t>(f.d, f.d + 8)); }
         else if (c < 36) { o = Op("sess", {6, 0, 0, r.pick<int64_t>({1, 5, 125, 126, 127, 128, 129, 199})}); }
+        else if (c < 37 && r.chance(1, 2)) { // a complete small segmented or block download / block upload to a communication-profile entry, on either server: the typed objects get the transfer buffer, not the frame
+            uint16_t ix = cfgIdx[r.below(sizeof cfgIdx / 2)]; uint8_t sub = (uint8_t)r.below(6); uint32_t size = r.pick<uint32_t>({4, 4, 4, 2, 1}); int64_t id = (int64_t)(0x600u + nid + (r.chance(1, 2) ? 0x40 : 0));
+            uint32_t val = r.pick<uint32_t>({0, 1, 0x80000000u, 0x40000080u, 0x65766173, 0x64616F6C, 0x21000108, 0x00640002, 1000, 0x181, (uint32_t)r.next()}); int kind = (int)r.below(3);
+            std::vector<uint8_t> a, b2, c2;
+            if (kind == 0) { a = {0x21, (uint8_t)ix, (uint8_t)(ix >> 8), sub, (uint8_t)size, 0, 0, 0}; b2 = {(uint8_t)(0x01 | ((7 - size) << 1)), (uint8_t)val, (uint8_t)(val >> 8), (uint8_t)(val >> 16), (uint8_t)(val >> 24), 0, 0, 0}; }
+            else if (kind == 1) { a = {0xC2, (uint8_t)ix, (uint8_t)(ix >> 8), sub, (uint8_t)size, 0, 0, 0}; b2 = {0x81, (uint8_t)val, (uint8_t)(val >> 8), (uint8_t)(val >> 16), (uint8_t)(val >> 24), 0, 0, 0}; c2 = {(uint8_t)(0xC1 | ((7 - size) << 2)), 0, 0, 0, 0, 0, 0, 0}; }
+            else { a = {0xA0, (uint8_t)ix, (uint8_t)(ix >> 8), sub, 127, 0, 0, 0}; b2 = {0xA3, 0, 0, 0, 0, 0, 0, 0}; c2 = {0xA2, 1, 127, 0, 0, 0, 0, 0}; }
+            p.ops.push_back(Op("rx", {id, 8, 1}, a)); if (!c2.empty()) { p.ops.push_back(Op("rx", {id, 8, 1}, b2)); o = Op("rx", {id, 8, 1}, c2); } else o = Op("rx", {id, 8, 1}, b2); }
         else if (c < 38 && r.chance(1, 2)) { // SDO client dialogue: mostly well-formed segments, sometimes more data than announced, wrong toggles, stray commands
             bool up = r.chance(2, 3); int64_t size = r.chance(1, 2) ? r.range(5, 40) : r.range(1, 600); int nseg = (int)((size + 6) / 7) + (int)r.range(-1, 3); if (nseg < 0) nseg = 0; if (nseg > 100) nseg = 100;
             o = Op("cdlg", {(int64_t)r.below(2), up ? 1 : 0, size - 1, (int64_t)(0x2000 + r.below(0x300)) | (int64_t)r.below(3) << 16, (int64_t)r.pick<int>({0, 5, 50}), up ? r.pick<int64_t>({0x41, 0x41, 0x41, 0x41, 0x40, 0x43, 0x4F, 0x42, 0x80}) : r.pick<int64_t>({0x60, 0x60, 0x60, 0x80, 0x20}), r.pick<int64_t>({0, 0, 0, 1, -1, 7, -7, 1000, 0xFFFFFFFFll, 0x7FFFFFFF})});
